@@ -38,6 +38,8 @@ def _selection(prog, f):
     from sa.inline import expand, resolve_callee
     from sa.pysrc import FuncInfo, Unknown
 
+    REORDERED = [None]
+
     def scan(node, owner, module, cls):
         env = {}
         for n in ast.walk(node):
@@ -47,9 +49,15 @@ def _selection(prog, f):
                     env[n.targets[0].id] = v
         al = P_.aliases(node)
         for lp in [n for n in ast.walk(node) if isinstance(n, ast.For) and isinstance(n.target, ast.Name)]:
-            src = P_.norm(lp.iter, al)
+            it_, reord_ = lp.iter, None
+            while isinstance(it_, ast.Call) and dotted(it_.func) in ("list", "tuple", "iter", "reversed", "sorted") and it_.args:
+                if dotted(it_.func) in ("reversed", "sorted"):
+                    reord_ = ast.unparse(it_)[:60]     # same elements, another order (reported by the order rule)
+                it_ = it_.args[0]
+            src = P_.norm(it_, al)
             if not src.endswith(".placeholders"):
                 continue
+            REORDERED[0] = reord_
             v = lp.target.id
             for pth in P_.enum_paths(lp.body):
                 def uses(stn):
@@ -68,7 +76,7 @@ def _selection(prog, f):
                     if a[0] == "in" and a[1] == v + ".element.ph_type":
                         st = prog.const(ast.parse(a[2], mode="eval").body, module, env, cls)
                         if isinstance(st, (tuple, list, frozenset)) and all(isinstance(x, EnumMember) for x in st):
-                            return {"names": {x.name for x in st}, "polarity": a[3], "source": src}
+                            return {"names": {x.name for x in st}, "polarity": a[3], "source": src, "reordered": REORDERED[0]}
         # the same selection written as a comprehension: (v for v in <x>.placeholders if <test on v.element.ph_type>)
         for g_ in [n for n in ast.walk(node) if isinstance(n, (ast.GeneratorExp, ast.ListComp)) and len(n.generators) == 1
                    and isinstance(n.generators[0].target, ast.Name)]:
@@ -167,7 +175,25 @@ def run(ctx):
     for fn, sl_, want_src in ((f, sel, ("self.placeholders",)), (g, sel2, ("notes_master.placeholders", "self.placeholders"))):
         if sl_ is None:
             continue
-        if sl_["source"] in want_src:
+        # ... and nothing re-orders them on the way out: sorted() / reversed() / set() / .sort() of the selected placeholders
+        reorder = None
+        sfn = sl_.get("func")
+        if sfn is not None and hasattr(sfn, "node"):
+            from sa import paths as _Po
+
+            vo = _Po.value_aliases(sfn.node)
+            for c_ in ast.walk(sfn.node):
+                if isinstance(c_, ast.Call) and dotted(c_.func) in ("sorted", "reversed", "set", "frozenset", "random.sample", "random.shuffle") and c_.args \
+                        and ".placeholders" in _Po.full(c_.args[0], vo):
+                    reorder = ast.unparse(c_)[:60]
+                elif isinstance(c_, ast.Call) and isinstance(c_.func, ast.Attribute) and c_.func.attr in ("sort", "reverse") \
+                        and ".placeholders" in _Po.full(c_.func.value, vo):
+                    reorder = ast.unparse(c_)[:60]
+        reorder = reorder or sl_.get("reordered")
+        if reorder:
+            ctx.violation("R13.1", fn.qualname + ":order", "the selected placeholders are re-ordered (`%s`) before they are handed out: the new slide's "
+                          "placeholders are not in the order of the layout" % reorder, file=fn.file, line=fn.line)
+        elif sl_["source"] in want_src:
             ctx.ok("R13.1", fn.qualname + ":order", nontrivial=False)
         else:
             ctx.violation("R13.1", fn.qualname + ":order", "does not iterate %s in document order (iterates %s)" % (want_src[0], sl_["source"]),
@@ -525,3 +551,58 @@ def run(ctx):
                               "position and size from the master body" % (k, v), file=bp.file, line=bp.line)
             else:
                 ctx.ok("R13.5", key, sample={"layout_type": k, "master_type": v})
+
+    # -- R13.6 ---------------------------------------------------------------------------------------
+    ctx.rule("R13.6", "each of left / top / width / height falls back on the base placeholder exactly when the placeholder's own value is None")
+    ihd = prog._anywhere("class", "_InheritsDimensions")
+    ev_ = prog.lookup(ihd, "_effective_value") if ihd is not None else None
+    if ev_ is None:
+        raise AnalysisError("anchor vanished: _InheritsDimensions._effective_value")
+    from sa import paths as _P136
+    from sa.desugar import desugar as _ds136
+
+    evx = _ds136(ev_.node)
+    al136, val136 = _P136.aliases(evx), _P136.value_aliases(evx)
+
+    def own_value(txt):
+        return txt.startswith("getattr(super(")
+
+    probs, npaths = [], 0
+    for pth in _P136.enum_paths(evx.body):
+        if pth.end != "return" or pth.end_node.value is None:
+            continue
+        npaths += 1
+        rv = _P136.full(pth.end_node.value, val136)
+        fs = _P136.facts(pth, None, al136)
+
+        def fact_own(is_none):
+            for a in fs:
+                if a[0] == "none" and a[2] is is_none:
+                    try:
+                        t_ = _P136.full(ast.parse(a[1], mode="eval").body, val136)
+                    except SyntaxError:
+                        t_ = a[1]
+                    if own_value(t_):
+                        return True
+                if a[0] == "is" and own_value(_P136.full(a[1], val136)) and str(a[2]) == "None" and a[3] is is_none:
+                    return True
+                if a[0] == "cmp" and own_value(_P136.full(a[2], val136)) and a[3] == "None" and ((a[1] in ("Is", "Eq")) == a[4]) is is_none:
+                    return True
+            return False
+
+        if "_inherited_value(" in rv:
+            if not fact_own(True):
+                probs.append("the inherited value is returned on a path that has not established that the placeholder's own value is None (%s)" % (
+                    "; ".join(str(a) for a in fs)[:80] or "unconditionally"))
+        elif own_value(rv):
+            if not fact_own(False):
+                probs.append("the placeholder's own value is returned without establishing that it is not None: a placeholder with a partial "
+                             "a:xfrm (only a rotation, only a size, only a position) reports None where its layout's value applies")
+        else:
+            probs.append("?returns `%s`" % rv[:50])
+    if not npaths or any(p_.startswith("?") for p_ in probs):
+        ctx.error("_InheritsDimensions._effective_value", "own value / inherited value selection not recognised (%s)" % "; ".join(probs)[:120])
+    elif probs:
+        ctx.violation("R13.6", "_InheritsDimensions._effective_value", "; ".join(sorted(set(probs))), file=ev_.file, line=ev_.line)
+    else:
+        ctx.ok("R13.6", "_InheritsDimensions._effective_value", sample={"own": "getattr(super(), attr)", "fallback": "when it is None", "paths": npaths})
